@@ -17,6 +17,8 @@ import (
 	"github.com/transparency-dev/witness/verifmc/ev"
 	"github.com/transparency-dev/witness/verifmc/uni"
 	"github.com/transparency-dev/witness/verifmc/wh"
+	"google.golang.org/grpc/codes"
+	"google.golang.org/grpc/status"
 )
 
 func init() {
@@ -98,6 +100,10 @@ func c06RunWorker(args []string) int {
 type c06Verify struct {
 	Stored map[string]string `json:"stored"` // logID -> base64 bytes
 	Logs   []string          `json:"logs"`
+	// API: what the restarted witness itself answers: "notfound", "error: ..."
+	// or the base64 bytes, per configured log; APILogs = GetLogs().
+	API     map[string]string `json:"api"`
+	APILogs []string          `json:"api_logs"`
 	Probes map[string]string `json:"probes"` // "<logID> fork"/"<logID> growth" -> class
 	Err    string            `json:"err"`
 }
@@ -110,15 +116,39 @@ func c06VerifyWorker(args []string) int {
 	u, gen, la, lb := c06Universe()
 	env := wh.NewEnv(u, wh.Config{Store: "file:" + args[0], Logs: []wh.LogCfg{la, lb}})
 	defer env.Close()
-	res := c06Verify{Stored: map[string]string{}, Probes: map[string]string{}}
+	res := c06Verify{Stored: map[string]string{}, Probes: map[string]string{}, API: map[string]string{}}
 	snap := env.Snap()
 	res.Logs = snap.Logs
 	for id, b := range snap.ByID {
 		res.Stored[id] = base64.StdEncoding.EncodeToString([]byte(b))
 	}
+	if l, err := env.W.GetLogs(); err == nil {
+		res.APILogs = l
+	} else {
+		res.APILogs = []string{"error: " + err.Error()}
+	}
+	for _, l := range []wh.LogCfg{la, lb} {
+		id := l.ID()
+		b, err := env.W.GetCheckpoint(id)
+		switch {
+		case err != nil && status.Code(err) == codes.NotFound:
+			res.API[id] = "notfound"
+		case err != nil:
+			res.API[id] = "error: " + err.Error()
+		default:
+			res.API[id] = base64.StdEncoding.EncodeToString(b)
+		}
+	}
 	for _, l := range []wh.LogCfg{la, lb} {
 		id := l.ID()
 		st, ok := wh.StateOf(gen, env.Stored(id))
+		if ok && !st.Has {
+			// Nothing stored: the restarted witness must accept a first use
+			// (e.g. the interrupted update submitted again).
+			cp, meta := gen.Get(l, u.Main, 3, "plain")
+			res.Probes[id+" first-use"] = env.Do(wh.Req{LogID: id, CP: cp, Meta: meta}).Class
+			continue
+		}
 		if !ok || !st.Has || st.Size == 0 || int(st.Size)+1 > u.N {
 			continue
 		}
@@ -248,7 +278,38 @@ func c06Judge(run *ev.Run, u *uni.U, gen *wh.CPGen, la, lb wh.LogCfg, steps []c0
 		}
 		// (iv) the restarted witness still refuses what is inconsistent and
 		// follows the honest log.
-		for probe, want := range map[string]string{" fork": wh.BadProof, " fork-same-size": wh.RootMismatch, " growth": wh.OK} {
+		// What the restarted witness itself serves must be what the table holds.
+		if api, ok := v.API[id]; ok {
+			want := "notfound"
+			if stored != nil {
+				want = base64.StdEncoding.EncodeToString(stored)
+			}
+			if api != want {
+				what := "different bytes than the table holds"
+				switch {
+				case strings.HasPrefix(api, "error"):
+					what = api
+				case api == "" || api == "notfound":
+					what = "nothing / empty bytes although a checkpoint is stored"
+				case stored == nil:
+					what = "bytes without a 'not found' error although no checkpoint is stored"
+				}
+				run.Report(sig("served-after-restart"), desc("GetCheckpoint of the restarted witness for "+l.Origin+" returns "+what), rep)
+			}
+		}
+		listed := false
+		for _, x := range v.APILogs {
+			if x == id {
+				listed = true
+			}
+			if strings.HasPrefix(x, "error") {
+				run.Report(sig("getlogs-after-restart"), desc("GetLogs of the restarted witness fails: "+x), rep)
+			}
+		}
+		if listed != (stored != nil) {
+			run.Report(sig("log-list-after-restart"), desc(fmt.Sprintf("after restart the log list names %s: %v, but a checkpoint is stored: %v", l.Origin, listed, stored != nil)), rep)
+		}
+		for probe, want := range map[string]string{" fork": wh.BadProof, " fork-same-size": wh.RootMismatch, " growth": wh.OK, " first-use": wh.OK} {
 			if got, ok := v.Probes[id+probe]; ok && got != want {
 				run.Report(sig("restart-probe"+strings.TrimSpace(probe)+" got="+got), desc(fmt.Sprintf("the restarted witness answered the %s probe for %s with %s, want %s", strings.TrimSpace(probe), l.Origin, got, want)), rep)
 			}
